@@ -12,7 +12,7 @@ import vlib
 LEVEL_TEXT = ('Lean 4 theorems, for all shapes/offsets/data and any number of overlapping fields: Wavefront.intensity is |Wavefront.field|^2 '
               'sample by sample; Wavefront.insert adds weight*intensity and nothing else; Plane.multiply multiplies the embedded field by '
               'amplitude*exp(2 pi i opd/lambda) inside the mask and by 0 outside, for scalar/array amplitude, OPD and mask in every '
-              'combination; wavelength is handed over unchanged, a Pupil hands over its focal length, the default plane is the identity, '
+              'combination (explicit Complex.exp for any segment list and for scalar masks); wavelength is handed over unchanged, a Pupil hands over its focal length, the default plane is the identity, '
               '_mul_pixelscale (regenerated from plane.py on every run) refuses exactly the defined-and-different pairs. The array plumbing '
               'is a hand model checked against the implementation on exact and floating-point data.')
 LEVEL_NOTE = ('Partial in one respect: fields/segments with exactly one element are excluded by hypothesis (lentil treats every '
@@ -21,16 +21,25 @@ LEVEL_NOTE = ('Partial in one respect: fields/segments with exactly one element 
 TECHNIQUE = 'Lean 4 proof (omega/induction/ring) over translator-regenerated kernels + hand model with differential correspondence'
 GEN = ['Extent', 'FieldIdx', 'Helper', 'PlanePx', 'PlaneHandover']
 OPS = ['C07', 'C03']
-RULE = ('cases: chains of 1..3 planes (Plane or Pupil) on a fresh wavefront with scalar/array amplitude, OPD and None/scalar/2-D/3-D mask in '
-        'every combination (segments 1..5, overlapping bounding boxes, overlapping layers), pixel scales None/equal/different; wavefronts '
-        'with 1..6 arbitrary overlapping fields; accumulation targets with prior content and weights; all _mul_pixelscale None-patterns. '
-        'distinct = canonical (mode, plane kinds, attribute kinds, shapes, boxes) signature; non-trivial = at least one array attribute or '
-        'more than one field')
+RULE = ('cases: chains of 1..4 planes on a fresh wavefront, the class drawn per plane among Plane, Pupil, Image, Tilt, Plane(ptype=pupil) within the '
+        'admitted plane types, scalar/array amplitude, OPD and None/scalar/2-D/3-D mask in every combination (segments 1..5, overlapping boxes, '
+        'overlapping layers, non-binary mask entries), pixel scales None/equal/different; chains of planes AND propagations (pupil planes -> '
+        'propagate_dft -> image planes / Tilt -> optional second propagation) with field and intensity compared after every element and insert at '
+        'the end; wavefronts with 1..6 arbitrary overlapping fields; accumulation targets with prior content and weights; all _mul_pixelscale '
+        'None-patterns; an extremes stream (physical units 1e-9..1e3, nanometre OPD maps, near-equal float pixel scales; 5 % of quick/thorough, half '
+        'of the failing-input search); oracle-only views on shape-() wavefronts, zero-dimensional fields and a single (1,1) field. '
+        'distinct = canonical (mode, plane kinds, attribute kinds, shapes, boxes) signature; non-trivial = at least one array attribute or more than one field')
 TRUSTED = ['NumPy slicing/broadcasting of amplitude[s]*mask[s]*exp(2 pi i opd[s]/wavelength) and util.boundary (modelled by hand in Model/Plane.lean)',
            'pixel scales are compared for equality only; the model carries them as integers',
            'np.exp(1j*t) = cos t + i sin t (Float model) ; |z**2| = re^2 + im^2 up to rounding']
 UNPROVEN = ['fields and segment phasors with exactly one element are outside the theorems (known finding KF-C07-one-pixel-segment)',
-            'the plane-type admission test of Plane.multiply (C08) and tilt bookkeeping (C04) are not part of this model']
+            'chains of planes AND propagations: each step is covered by a theorem (plane: plane_multiply_*; views after any step: intensity_eq_normSq_field, wavefront_insert_weight; '
+            'chain of planes: C03 chain_distrib; propagation: C02/C03), the interleaved chain as a whole by correspondence (c03.chain) and oracle only',
+            'views on shape-() wavefronts and zero-dimensional / single (1,1) fields: oracle only (the array model has no 0-d data; C06 reduceZ covers the merge)',
+            'multiply overrides other than Plane/Pupil/Image/Tilt: DispersiveTilt/Grism (tilt bookkeeping, C04), LensletArray are not exercised; DispersiveAberration.multiply raises NotImplementedError; '
+            'Rotate/Flip.multiply raise AttributeError (open known finding of C08)',
+            'the plane-type admission test of Plane.multiply (C08) and tilt bookkeeping (C04) are not part of this model',
+            'the constructor\'s mask normalisation (mask != 0, mask=None -> amplitude) is applied by the harness before the model sees the plane (Plane.__init__ is pinned)']
 ASSUMPTIONS = ['every segment bounding box and every intermediate field has more than one element (this includes a propagation window of a single output sample: with two or more fields Wavefront.intensity then raises ValueError in field._merge — reported)',
                'attribute arrays have the shape of the mask (otherwise NumPy raises or broadcasts; malformed input)']
 
